@@ -100,7 +100,7 @@ def run(ctx):
     for pi in range(nproj):  # WRAPPED
         try:
             cfg = CONFIGS[(pi * ctx.nshards + ctx.shard) % len(CONFIGS)]
-            sc = LogixScenario(rng, size=rng.choice(["small", "medium", "medium", "large"]), config=cfg)
+            sc = LogixScenario(rng, size=rng.choice(["small", "medium", "medium", "large", "fixture"]), config=cfg)
             res.count("projects")
             if not sc.ok():
                 res.ev()
